@@ -1447,7 +1447,7 @@ class Engine:
             ntypes = rng.choice([0, 1, 1, 2, 2, 3]) if rng.random() > 0.04 else len(POOL)  # (now and then under every type of the pool at once)
             types: Any = rng.sample(range(len(POOL)), ntypes)
             cmd = {"op": "add_resource", "cid": cid, "vid": self.fresh(), "vtype": rng.randrange(Pool.N_CLASSES), "name": name, "types": types,
-                   "types_single": rng.random() < 0.5, "desc": rng.choice([None, "d1", "d2"]), "via": rng.choice(["method", "shortcut"]),
+                   "types_single": rng.random() < 0.5, "desc": rng.choice([None, "d1", "d2", ""]), "via": rng.choice(["method", "shortcut"]),
                    "teardown": rng.choice([None, "probe", "probe"])}
             own = [res.tag for res in mc.resources.values() if isinstance(res.tag, tuple) and res.tag[0] == "val" and res.tag in self.objs
                    and type(self.objs[res.tag]) in POOL.classes]
@@ -1470,7 +1470,7 @@ class Engine:
             ntypes = rng.choice([1, 1, 2, 2, 3]) if rng.random() > 0.04 else len(POOL)
             types = rng.sample(range(len(POOL)), ntypes)
             cmd = {"op": "add_factory", "cid": cid, "fid": self.fresh(), "name": name, "types": types, "types_single": rng.random() < 0.5,
-                   "annotated": rng.random() < 0.3, "annotated_meta": rng.random() < 0.3, "desc": rng.choice([None, "fd"]), "is_async": rng.random() < 0.5,
+                   "annotated": rng.random() < 0.3, "annotated_meta": rng.random() < 0.3, "desc": rng.choice([None, "fd", ""]), "is_async": rng.random() < 0.5,
                    "async_kind": rng.choice(["def", "def", "lambda", "object"]), "partial": rng.random() < 0.15,
                    "via": rng.choice(["method", "shortcut"]),
                    # concrete class of what the factory builds: a class of its own, or exactly one of the pool's plain classes
